@@ -103,6 +103,7 @@ type awaiter struct {
 	startIdx  int // index into the current-promise history at issue time
 	endIdx    int
 	src       *prom
+	label     string
 }
 
 func run11(t *testing.T, cs Case) *ev.Verdict {
@@ -259,6 +260,36 @@ func body11(c *sched.Ctl, cs Case, v *ev.Verdict) {
 		}
 	}
 
+	// partial: other operations are parked at schedule points, every goroutine without a ticket
+	// is durably blocked. An awaiter among those has nothing left to do but wait, so the promise
+	// it has to look at (the container's current one) cannot hold a result.
+	partial := func(where string) {
+		hm.Lock()
+		defer hm.Unlock()
+		pend := map[string]bool{}
+		for _, tk := range c.Pending() {
+			pend[tk.Label] = true
+		}
+		var resolved *prom
+		if cs.Container {
+			if p := curProm(); p != nil && p.hasRes {
+				resolved = p
+			}
+		} else if single.hasRes {
+			resolved = single
+		}
+		if resolved == nil {
+			return
+		}
+		for _, a := range awaiters {
+			if a.returned || pend[a.label] {
+				continue
+			}
+			fail("promise:blocked-despite-result", "%s: %s await #%d is blocked (it is not waiting at a schedule point; other operations are) although the (current) promise %d is resolved with (%d,%v)", where, a.kind, a.id, resolved.id, resolved.val, resolved.err)
+			return
+		}
+	}
+
 	for i, op := range cs.Ops {
 		if len(v.Viol) > 0 || c.StepLimit {
 			break
@@ -382,7 +413,7 @@ func body11(c *sched.Ctl, cs Case, v *ev.Verdict) {
 			})
 		case "await":
 			hm.Lock()
-			a := &awaiter{id: len(awaiters), kind: op.Kind, startIdx: len(hist) - 1}
+			a := &awaiter{id: len(awaiters), kind: op.Kind, startIdx: len(hist) - 1, label: label}
 			awaiters = append(awaiters, a)
 			hm.Unlock()
 			ctx, cancel := context.WithCancel(context.Background())
@@ -547,6 +578,8 @@ func body11(c *sched.Ctl, cs Case, v *ev.Verdict) {
 		}
 		if full {
 			quiescent(fmt.Sprintf("after op %d", i))
+		} else {
+			partial(fmt.Sprintf("after op %d", i))
 		}
 	}
 	if len(v.Viol) == 0 && !c.StepLimit && c.Settle(true) {
